@@ -30,12 +30,21 @@ def make_file(r, n):
         ["Note", "k1", "a_b", "x.y", "Alias", "tag", "flag1"], 5)
     nextra = r.choice([0, 0, 1, 2])
     full_first = r.random() < 0.75        # the first line shows every key, so the voted order is the global one
+    # "late keys": the first four lines carry only the two id keys, later lines bring keys the inspection window may
+    # never have seen (they print after the known ones, in the order they were stored); reverse alphabetical, so that
+    # neither sorting nor re-ranking them goes unnoticed
+    late = r.random() < 0.3
+    if late:
+        full_first = False
+        allkeys = allkeys[:2] + sorted(allkeys[2:], reverse=True)
     specs = []
     for i in range(n):
         s = gen_spec.Spec()
         s.mode = "file"
         s.style, s.quoted, s.sep, s.trailing, s.repeated = style, quoted, sep, tr, rep
         keys = [k for k in allkeys[2:] if r.random() < 0.5 or (i == 0 and full_first)]
+        if late:
+            keys = [] if i < 4 else (keys if len(keys) >= 2 else allkeys[2:5])
         keys = allkeys[:2] + keys
         attrs = []
         for j, k in enumerate(keys):
@@ -236,6 +245,19 @@ def run(ctx):
         if in_domain and n >= 2:
             res.nontriv(tuple(lines))
         cmds += c1[1:]; exp += e1[1:]; tags += [(t, ccase) for t in t1[1:]]
+        # the same database opened with the other print settings: sort_attribute_values sorts every value list as
+        # written, with and without keep_order (model: Session.sortVals -> Parser.reconstruct)
+        for ko, sv in ((True, True), (False, True), (False, False)):
+            try:
+                dbs = gffutils.FeatureDB(db.conn, keep_order=ko, sort_attribute_values=sv)
+                sel = list(dbs.all_features())[:4]
+            except Exception:
+                continue
+            cmds.append("reopen %d %d" % (ko, sv)); exp.append("ok"); tags.append(("FeatureDB(keep_order, sort_attribute_values)", ccase))
+            for f in sel:
+                cmds.append("get " + enc(f.id)); exp.append("ok " + pyside.enc_feature(f))
+                tags.append(("db[id] + str() with keep_order=%r sort_attribute_values=%r" % (ko, sv), ccase))
+        cmds.append("reopen 1 0"); exp.append("ok"); tags.append(("FeatureDB(keep_order=True)", ccase))
         check_reimports(ctx, case, db, dbfn, cfg, feats, in_domain, res)
         if len(res.samples) < 2:
             res.sample(inp)
